@@ -33,13 +33,3 @@ fn q_h05dec__mp4a_esds_lc_16000_mono() {
     crate::c05_decode_ref!(Mp4aBox, v, ref_mp4a, 83);
 }
 
-#[kani::proof]
-#[kani::unwind(8)]
-fn q_h05dec__avcc_s1x4_p1x2() {
-    crate::c05_decode_ref!(AvcCBox, any_avcc::<1, 4, 1, 2>(), ref_avcc, 33);
-}
-#[kani::proof]
-#[kani::unwind(6)]
-fn q_h05dec__hvcc_a1_n1x2() {
-    crate::c05_decode_ref!(HvcCBox, any_hvcc::<1, 1, 2>(), ref_hvcc, 46);
-}
